@@ -92,6 +92,31 @@ def _pool():
     return out
 
 
+def eval_pol(pol, c):
+    """the filter (polish token list) on a content code — written from the documented meaning of the atoms, independent of
+    mitmproxy.flowfilter; returns (value, rest)"""
+    t, rest = pol[0], pol[1:]
+    typ = c % 4; bit = lambda k: (c // k) % 2 == 1
+    if t == "all": return True, rest
+    if t in ("http", "tcp", "udp", "dns"): return typ == ("http", "tcp", "udp", "dns").index(t), rest
+    if t == "ws": return bit(16), rest
+    if t == "resp": return bit(4), rest
+    if t == "err": return bit(8), rest
+    if t == "marked": return bit(32), rest
+    if t == "noresp": return typ in (0, 3) and not bit(4), rest
+    if t == "replay": return bit(64), rest
+    if t == "post": return typ == 0 and bit(128), rest
+    if t == "c200": return typ == 0 and bit(4) and not bit(256), rest
+    if t == "c404": return typ == 0 and bit(4) and bit(256), rest
+    if t == "not":
+        a, rest = eval_pol(rest, c); return (not a), rest
+    a, rest = eval_pol(rest, c); b, rest = eval_pol(rest, c)
+    return ((a and b) if t == "and" else (a or b)), rest
+
+
+STR2POL = {}         # filter expression handed to the option -> the polish form it was rendered from
+
+
 def code_of(f):
     typ = 0 if isinstance(f, http.HTTPFlow) else 1 if isinstance(f, tcp.TCPFlow) else 2 if isinstance(f, udp.UDPFlow) else 3
     resp = 1 if getattr(f, "response", None) else 0
@@ -151,7 +176,15 @@ class Check(PropertyCheck):
                   "open flows only while streaming). The model is tied to the real Save/FilteredFlowWriter by replaying "
                   "identical histories and comparing, after every event, exception/exit status, stream open, the open-flow "
                   "set and the records appended to / truncated from every file (parsed back with FlowReader).")
-    level_note = ("flowfilter.match, strftime and Path.open are environment parameters of the theorems; the driver "
+    level_note = ("Oracle audit: no Skip; lenient/abstaining branches, each with a doctored near-miss in known_selftest(): "
+                  "(a) sys.exit - excused only when the strftime target of that moment cannot be opened and nothing is written by "
+                  "or after it; (b) a stop that changes the filter in the same update - old or new filter accepted (for every "
+                  "other stop old = new); (c) events after the `done` hook are not judged (the done event itself is). Expected "
+                  "matches come from the harness's own evaluator of the filter it configured on the content it gave each flow "
+                  "(flowfilter.match only cross-checked); update outcomes are checked against the request (bad filter / "
+                  "unopenable file must raise, option set/unset as requested, unchanged after a failure). No implementation "
+                  "state is copied into the model (it receives the same events and the harness-chosen flow contents). "
+                  "flowfilter.match, strftime and Path.open are environment parameters of the theorems; the driver "
                   "instantiates them with a 14-atom filter AST (~all ~http ~tcp ~udp ~dns ~websocket ~s ~e ~marked ~q ~replay "
                   "'~m POST' '~c 200' '~c 404' with ! & |), three strftime patterns over an hour/minute clock (r%M, d%H/x%M with "
                   "directory creation, h%H) and three unopenable paths, which the "
@@ -194,6 +227,40 @@ class Check(PropertyCheck):
         # traversing (and thereby copy-on-write duplicating) them on every full collection
         import gc
         gc.collect(); gc.freeze()
+
+        self.known_selftest()
+
+    def known_selftest(self):
+        """doctored observations just outside each excused class must be rejected (independent of the tree under test)"""
+        def meta(kind, **kw):
+            m = {"kind": kind, "opt_file": True, "opt_file_after": True, "opt_filter": False, "append": False, "codes": [0, 1],
+                 "matches": {"old": [[0, 0], [1, 1]], "new": [[0, 0], [1, 1]]}, "target_unopenable": False, "req": ["_", "_"]}
+            m.update(kw); return m
+        def st(raised=0, dead=0, stream=1, act=(), ch=()): return [raised, dead, stream, list(act), [list(c) for c in ch]]
+        case = {"types": ["http", "tcp"], "events": []}
+        tests = [
+            # exit excused only if the target cannot be opened
+            ("exit", [st(dead=1)], [meta("hook", hook="response", flow=0, code=0, ws=False)], True),
+            ("exit-ok", [st(dead=1)], [meta("hook", hook="response", flow=0, code=0, ws=False, target_unopenable=True)], False),
+            ("write-after-exit", [st(dead=1, ch=[[0, 0, [[0, 0]]]])], [meta("hook", hook="response", flow=0, code=0, ws=False, target_unopenable=True)], True),
+            # stop: only the old or the new filter's selection of the open flows is accepted
+            ("stop-third", [st(act=[1]), st(stream=0, ch=[[0, 0, [[0, 0]]]])],
+             [meta("hook", hook="tcp_start", flow=1), meta("update", opt_file_after=False, req=["none", "_"], kw=["save_stream_file"])], True),
+            ("stop-ok", [st(act=[1]), st(stream=0, ch=[[0, 0, [[1, 1]]]])],
+             [meta("hook", hook="tcp_start", flow=1), meta("update", opt_file_after=False, req=["none", "_"], kw=["save_stream_file"])], False),
+            ("stop-missing", [st(act=[1]), st(stream=0)], [meta("hook", hook="tcp_start", flow=1), meta("done")], True),
+            # nothing is excused AT the done event, only after it
+            ("after-done", [st(stream=0), st(ch=[[0, 0, [[0, 0]]]])], [meta("done"), meta("tick")], False),
+            ("at-done", [st(stream=0, ch=[[0, 0, [[0, 0]]]])], [meta("done")], True),
+            # completion of a non-matching flow must write nothing; websocket response is not a completion
+            ("nonmatch", [st(ch=[[0, 0, [[0, 0]]]])], [meta("hook", hook="response", flow=0, code=0, ws=False, matches={"old": [], "new": []})], True),
+            ("ws-early", [st(ch=[[0, 0, [[0, 16]]]])], [meta("hook", hook="response", flow=0, code=16, ws=True)], True),
+            ("bad-filter-accepted", [st()], [meta("update", req=["_", "bad"], kw=["save_stream_filter"])], True),
+        ]
+        for name, steps, metas, want_fail in tests:
+            got = bool(self.oracle(case, {"steps": steps, "meta": metas, "final": {}}))
+            assert got == want_fail, f"C39 oracle self-test {name}: expected {'a failure' if want_fail else 'no failure'}"
+        assert eval_pol(["or", "not", "ws", "and", "marked", "c404"], 0 + 4 + 32 + 256)[0] and not eval_pol(["noresp"], 1)[0]
 
     def _rand_filter(self, rng, depth=0):
         return rng.pick(POOL[:14]) if rng.chance(0.5) else rng.pick(POOL)
@@ -391,6 +458,8 @@ class Check(PropertyCheck):
                         kw["save_stream_file"] = None if ev[1] == "none" else ("+" if ev[1][0] == "a" else "") + os.path.join(d, PATS[int(ev[1][1:])])
                     if ev[2] != "_":
                         kw["save_stream_filter"] = None if ev[2] == "unset" else "~~" if ev[2] == "bad" else flt_str(ev[2].split(","))[0]
+                        if ev[2] not in ("unset", "bad"): STR2POL[kw["save_stream_filter"]] = ev[2].split(",")
+                    m["req"] = [ev[1], ev[2]]
                     m["kw"] = sorted(kw)
                     if not dead and kw:
                         try:
@@ -402,8 +471,13 @@ class Check(PropertyCheck):
                 # what the statement talks about, computed from the real objects, before looking at the files
                 m["matches"] = {}
                 for nm, flt in (("old", m["opt_filter"]), ("new", tctx.options.save_stream_filter)):
+                    # input-derived: our own evaluation of the filter the harness configured, on the content the harness gave the flow
                     m["matches"][nm] = [[i, code_of(f)] for i, f in enumerate(flows)
-                                        if (not flt) or flowfilter.match(_parse(flt), f)]
+                                        if (not flt) or eval_pol(STR2POL[flt], code_of(f))[0]]
+                    ref = [[i, code_of(f)] for i, f in enumerate(flows) if (not flt) or flowfilter.match(_parse(flt), f)]
+                    if ref != m["matches"][nm]: m.setdefault("problems", []).append("flowfilter.match disagrees with the harness evaluator for %r" % flt)
+                of = tctx.options.save_stream_file
+                m["target_unopenable"] = bool(of) and os.path.isdir(_FakeNow.strftime(of[1:] if of.startswith("+") else of))
                 m["opt_file_after"] = tctx.options.save_stream_file
                 m["append"] = bool(tctx.options.save_stream_file and tctx.options.save_stream_file.startswith("+"))
                 m["append_before"] = bool(m["opt_file"] and m["opt_file"].startswith("+"))
@@ -436,6 +510,7 @@ class Check(PropertyCheck):
         if "exc" in obs: return ["unexpected exception " + obs["exc"]]
         fails = []
         sizes = {}
+        was_dead = False
         pending = set()          # flows that started while saving was active and have not completed / been flushed
         for k, (st, m) in enumerate(zip(obs["steps"], obs["meta"])):
             raised, dead, stream, act, ch = st
@@ -443,9 +518,24 @@ class Check(PropertyCheck):
             active_before = m["opt_file"]             # "With save_stream_file set": the option, not addon internals
             active_after = m["opt_file_after"]
             old_m = {tuple(x) for x in m["matches"]["old"]}; new_m = {tuple(x) for x in m["matches"]["new"]}
+            fails.extend(m.get("problems", []))
             if dead:
+                # ABSTAIN (exit): the statement is silent about sys.exit; excused only when the strftime target of that moment
+                # cannot be opened, and nothing may be written by or after it
                 if added: fails.append(f"event {k}: records written by/after sys.exit")
+                if not was_dead and not m["target_unopenable"]:
+                    fails.append(f"event {k}: the addon exited the process although the stream file can be opened")
+                was_dead = True
                 continue
+            if m["kind"] == "update":
+                # input-derived expectations about the update itself
+                rf, rq = m["req"]
+                if rq == "bad" and not raised: fails.append(f"event {k}: unparsable save_stream_filter accepted")
+                if rf not in ("_", "none") and rf[1:] == "3" and not raised: fails.append(f"event {k}: unopenable save_stream_file accepted")
+                if not raised and rf != "_" and (rf != "none") != active_after:
+                    fails.append(f"event {k}: save_stream_file option is {'set' if active_after else 'unset'} after update {rf}")
+                if raised and active_after != active_before:
+                    fails.append(f"event {k}: failed update changed save_stream_file")
             # append mode ("+" prefix): a file never loses records
             for pid, kept, add in ch:
                 if kept < sizes.get(pid, 0) and m["append"]:
@@ -464,14 +554,15 @@ class Check(PropertyCheck):
                 pending.discard(f)
             elif m["kind"] == "done" or (m["kind"] == "update" and active_before and not active_after):
                 # "flows that started while saving was active but had not completed are written once when saving stops"
-                # (the filter of a simultaneous filter change: either the old or the new one is accepted)
+                # LENIENT (simultaneous filter change): when the stopping update also changes the filter either the old or the
+                # new filter is accepted; for every other stop old == new, so nothing is loosened there
                 cand = {(f, m["codes"][f]) for f in pending}
                 want_old = sorted(cand & old_m); want_new = sorted(cand & new_m)
                 if not active_before: want_old = want_new = []
                 if added != want_old and added != want_new:
                     fails.append(f"event {k}: stop wrote {added}, open flows were {sorted(cand)}, matching {want_old}")
                 pending.clear()
-                if m["kind"] == "done": break        # shutdown: the statement says nothing about later events
+                if m["kind"] == "done": break        # ABSTAIN (after shutdown): the statement says nothing about events after `done`
             else:
                 # "No record is written for a flow before its completion, except when saving stops."
                 if added: fails.append(f"event {k} ({m['kind']} {m.get('hook', '')}): wrote {added} although nothing completed and saving did not stop")
